@@ -33,10 +33,11 @@ TYPES = {
         "f": fld(N("Int"), [("x", N("Int")), ("y", NN(N("Int")), 5), ("z", N("Int"), 7)]),
         "g": fld(N("Int"), [("req", NN(N("Int")))]),
         "o": fld(N("A")), "on": fld(NN(N("A"))), "l": fld(L(N("A"))), "ln": fld(NN(L(NN(N("A"))))),
-        "i": fld(N("I")), "u": fld(N("U")), "li": fld(L(NN(N("Int")))), "lli": fld(L(L(N("Int"))))}},
+        "i": fld(N("I")), "u": fld(N("U")), "li": fld(L(NN(N("Int")))), "lli": fld(L(L(N("Int")))),
+        "lu": fld(L(N("U"))), "lin": fld(L(NN(N("I"))))}},
     "A": {"kind": "OBJECT", "possible": [], "fields": {
         "x": fld(N("Int")), "y": fld(NN(N("Int"))), "o": fld(N("A")), "i": fld(N("I")), "l": fld(L(N("Int"))),
-        "f": fld(N("Int"), [("x", N("Int"), 1)]), "s": fld(N("String"))}},
+        "f": fld(N("Int"), [("x", N("Int"), 1)]), "s": fld(N("String")), "lu": fld(L(N("U")))}},
     "B": {"kind": "OBJECT", "possible": [], "fields": {"x": fld(N("Int")), "z": fld(NN(N("Int"))), "o": fld(N("A"))}},
     "I": {"kind": "INTERFACE", "possible": ["A", "B"], "fields": {"x": fld(N("Int"))}},
     "U": {"kind": "UNION", "possible": ["A", "B"], "fields": {}},
@@ -94,11 +95,22 @@ def sdl():
 _schema = None
 
 
+IS_TYPE_OF_HOOK = None      # set by C03: (type name, thunk, info) -> bool or awaitable
+
+
 def schema():
     global _schema
     if _schema is None:
         from graphql import build_schema
         _schema = build_schema(sdl())
+        for tn in ("A", "B"):
+            def is_type_of(value, info, tn=tn):
+                def thunk():
+                    return getattr(value, "typename", None) == tn
+                if IS_TYPE_OF_HOOK is not None:
+                    return IS_TYPE_OF_HOOK(tn, thunk, info)
+                return thunk()
+            _schema.type_map[tn].is_type_of = is_type_of
     return _schema
 
 
@@ -243,6 +255,10 @@ class DocGen:
                     self.argcache[akey] = self.args(fd)
                 sels.append({"k": "F", "alias": alias, "name": f, "args": self.argcache[akey], "dirs": self.dirs(),
                              "sel": [] if leaf else self.sel(t[1], depth - 1)})
+                if not leaf and rnd.random() < 0.2:
+                    # the same field again under the same response key with another sub-selection (merged field group)
+                    sels.append({"k": "F", "alias": alias, "name": f, "args": self.argcache[akey], "dirs": [],
+                                 "sel": self.sel(t[1], depth - 1)})
         return sels or [self.typename()]
 
     def typename(self):
